@@ -84,10 +84,3 @@ func VH_C09_batch() {
 		vCover("continue")
 	}
 }
-
-func b2i(b bool) int {
-	if b {
-		return 1
-	}
-	return 0
-}
